@@ -103,7 +103,34 @@ def failing_decls(log):
     return seen
 
 
-def prepare(prop_id, targets, regenerate=True, want_driver=True):
+def pw_import_closure(targets):
+    """modules of the PW library that the targets import, transitively (for leanchecker)"""
+    seen, todo = [], list(targets)
+    while todo:
+        m = todo.pop()
+        if m in seen or not m.startswith("PW"):
+            continue
+        path = os.path.join(LEAN_DIR, *m.split(".")) + ".lean"
+        if not os.path.exists(path):
+            continue
+        seen.append(m)
+        for line in open(path):
+            mm = re.match(r"\s*import\s+(\S+)", line)
+            if mm:
+                todo.append(mm.group(1))
+    return sorted(seen)
+
+
+def leancheck(targets):
+    """independent re-check of the compiled .olean files of the property's cone (thorough tier)"""
+    mods = pw_import_closure(targets)
+    p = subprocess.run(["lake", "env", "leanchecker"] + mods, cwd=LEAN_DIR, capture_output=True, text=True, env=LAKE_ENV)
+    out = p.stdout + p.stderr
+    ok = p.returncode == 0 and "uncaught exception" not in out and "error" not in out.lower()
+    return {"modules": mods, "ok": ok, "log": out[-2000:]}
+
+
+def prepare(prop_id, targets, regenerate=True, want_driver=True, tier="quick"):
     """returns dict(build_ok, build_log, failing, obligations=[{name, ok, axioms, note}], forbidden, checker_cmd, wall)"""
     t0 = time.time()
     res = {"build_ok": False, "build_log": "", "failing": [], "obligations": [], "forbidden": [], "gen": {}}
@@ -155,5 +182,7 @@ def prepare(prop_id, targets, regenerate=True, want_driver=True):
             for n in names:
                 res["obligations"].append({"name": n, "ok": False, "axioms": [], "note": "build failed"})
         res["forbidden"] = grep_forbidden()
+        if tier == "thorough" and res["build_ok"]:
+            res["leanchecker"] = leancheck(targets)
     res["wall"] = time.time() - t0
     return res
